@@ -7,6 +7,8 @@ Expressions are tuples:
   ('H', mode, var, body, at)   second derivative of (lambda var: body) at `at`
   ('F', e)                     e, evaluated after a failing inner differentiation was caught (no effect on the value)
   ('P', mode, var, body, at)   the primal value (lambda var: body)(at) as returned by a differential operator
+  ('M', spec, (va, vb), body, ('pair', at_a, at_b))   mixed second partial d/dv_j d/dv_i of (lambda va, vb: body) at (at_a, at_b),
+                               spec = (outer mode, j, inner mode, i, ...) - two stacked operators on a two-argument function
 
 resolve(D(λy.B)(A)) = subst(∂_y resolve(B), y := resolve(A)); binders are unique so capture cannot
 occur and the reference cannot exhibit perturbation confusion.  No simplification; evaluation in floats.
@@ -70,6 +72,11 @@ def resolve(e):
     if t == "P":  # the primal value of (lambda var: body)(at) as handed back by a differential operator
         _, mode, var, body, at = e
         return subst(resolve(body), var, resolve(at))
+    if t == "M":
+        _, spec, (va, vb), body, at = e
+        vs = (va, vb)
+        r = d(d(resolve(body), vs[spec[3]]), vs[spec[1]])
+        return subst(subst(r, va, resolve(at[1])), vb, resolve(at[2]))
     return (t,) + tuple(resolve(a) for a in e[1:])
 
 
@@ -99,7 +106,7 @@ def mentions(e, name):
         return e[1] == name
     if t == "pow":
         return mentions(e[1], name)
-    if t in ("D", "P", "H"):
+    if t in ("D", "P", "H", "M"):
         return mentions(e[3], name) or mentions(e[4], name)
     return any(mentions(a, name) for a in e[1:])
 
@@ -110,8 +117,8 @@ def ndepth(e):
         return 0
     if t == "pow":
         return ndepth(e[1])
-    if t in ("D", "P", "H"):
-        return (2 if t == "H" else 1) + max(ndepth(e[3]), ndepth(e[4]))
+    if t in ("D", "P", "H", "M"):
+        return (2 if t in ("H", "M") else 1) + max(ndepth(e[3]), ndepth(e[4]))
     return max(ndepth(a) for a in e[1:])
 
 
@@ -121,6 +128,6 @@ def size(e):
         return 1
     if t == "pow":
         return 1 + size(e[1])
-    if t in ("D", "P", "H"):
+    if t in ("D", "P", "H", "M"):
         return 1 + size(e[3]) + size(e[4])
     return 1 + sum(size(a) for a in e[1:])
